@@ -549,44 +549,50 @@ func keyObjects(tr *hx.Trace, r *hx.Rng, thorough bool) {
 		tr.Emit(map[string]interface{}{"op": "access", "publicOk": publicOk, "seedOk": seedOk, "roundTrip": roundTrip, "fresh": fresh, "cfg": *fCfg})
 
 		// --- Equal truth table
-		eq := func(sameType bool, a, b []byte, got bool, what string) {
+		eq := func(sameType bool, a, b []byte, call func() bool, what string) {
+			// Equal never panics (it reports inequality for anything that is not an equal key of the same type)
+			got, panicked := false, false
+			panicked = guard(tr, "Equal ("+what+")", func() { got = call() })
+			if panicked {
+				return
+			}
 			tr.Emit(map[string]interface{}{"op": "equal", "sameType": sameType, "a": hx.Ints(a), "b": hx.Ints(b), "got": got, "what": what, "cfg": *fCfg})
 		}
-		eq(true, k, orig, k.Equal(ed25519.PrivateKey(append([]byte{}, orig...))), "priv identical copy")
+		eq(true, k, orig, func() bool { return k.Equal(ed25519.PrivateKey(append([]byte{}, orig...))) }, "priv identical copy")
 		for i := 0; i < 64; i++ {
 			for _, mask := range []byte{0x01, 0x80} {
 				o := append([]byte{}, orig...)
 				o[i] ^= mask
-				eq(true, k, o, k.Equal(ed25519.PrivateKey(o)), "priv one byte differs")
+				eq(true, k, o, func() bool { return k.Equal(ed25519.PrivateKey(o)) }, "priv one byte differs")
 			}
 		}
 		pk := ed25519.PublicKey(orig[32:])
-		eq(true, pk, orig[32:], pk.Equal(ed25519.PublicKey(append([]byte{}, orig[32:]...))), "pub identical copy")
+		eq(true, pk, orig[32:], func() bool { return pk.Equal(ed25519.PublicKey(append([]byte{}, orig[32:]...))) }, "pub identical copy")
 		for i := 0; i < 32; i++ {
 			o := append([]byte{}, orig[32:]...)
 			o[i] ^= 1 << uint(r.Intn(8))
-			eq(true, pk, o, pk.Equal(ed25519.PublicKey(o)), "pub one byte differs")
+			eq(true, pk, o, func() bool { return pk.Equal(ed25519.PublicKey(o)) }, "pub one byte differs")
 		}
-		eq(true, k, orig[:63], k.Equal(ed25519.PrivateKey(orig[:63])), "priv shorter")
-		eq(true, pk, orig[32:63], pk.Equal(ed25519.PublicKey(orig[32:63])), "pub shorter")
-		eq(true, pk, append(append([]byte{}, orig[32:]...), 0), pk.Equal(ed25519.PublicKey(append(append([]byte{}, orig[32:]...), 0))), "pub longer")
-		eq(false, k, orig, k.Equal(stded.PrivateKey(orig)), "priv vs crypto/ed25519.PrivateKey")
-		eq(false, pk, orig[32:], pk.Equal(stded.PublicKey(orig[32:])), "pub vs crypto/ed25519.PublicKey")
-		eq(false, k, orig, k.Equal([]byte(orig)), "priv vs []byte")
-		eq(false, pk, orig[32:], pk.Equal(k), "pub vs priv")
-		eq(false, k, orig, k.Equal(pk), "priv vs pub")
-		eq(false, k, orig, k.Equal(nil), "priv vs nil")
-		eq(false, k, orig, k.Equal(&k), "priv vs *PrivateKey")
-		eq(false, pk, orig[32:], pk.Equal(&pk), "pub vs *PublicKey")
-		eq(true, k, []byte{}, k.Equal(ed25519.PrivateKey(nil)), "priv vs empty PrivateKey")
-		eq(true, pk, []byte{}, pk.Equal(ed25519.PublicKey{}), "pub vs empty PublicKey")
-		eq(true, ed25519.PublicKey{}, []byte{}, ed25519.PublicKey(nil).Equal(ed25519.PublicKey{}), "empty pub vs empty pub")
+		eq(true, k, orig[:63], func() bool { return k.Equal(ed25519.PrivateKey(orig[:63])) }, "priv shorter")
+		eq(true, pk, orig[32:63], func() bool { return pk.Equal(ed25519.PublicKey(orig[32:63])) }, "pub shorter")
+		eq(true, pk, append(append([]byte{}, orig[32:]...), 0), func() bool { return pk.Equal(ed25519.PublicKey(append(append([]byte{}, orig[32:]...), 0))) }, "pub longer")
+		eq(false, k, orig, func() bool { return k.Equal(stded.PrivateKey(orig)) }, "priv vs crypto/ed25519.PrivateKey")
+		eq(false, pk, orig[32:], func() bool { return pk.Equal(stded.PublicKey(orig[32:])) }, "pub vs crypto/ed25519.PublicKey")
+		eq(false, k, orig, func() bool { return k.Equal([]byte(orig)) }, "priv vs []byte")
+		eq(false, pk, orig[32:], func() bool { return pk.Equal(k) }, "pub vs priv")
+		eq(false, k, orig, func() bool { return k.Equal(pk) }, "priv vs pub")
+		eq(false, k, orig, func() bool { return k.Equal(nil) }, "priv vs nil")
+		eq(false, k, orig, func() bool { return k.Equal(&k) }, "priv vs *PrivateKey")
+		eq(false, pk, orig[32:], func() bool { return pk.Equal(&pk) }, "pub vs *PublicKey")
+		eq(true, k, []byte{}, func() bool { return k.Equal(ed25519.PrivateKey(nil)) }, "priv vs empty PrivateKey")
+		eq(true, pk, []byte{}, func() bool { return pk.Equal(ed25519.PublicKey{}) }, "pub vs empty PublicKey")
+		eq(true, ed25519.PublicKey{}, []byte{}, func() bool { return ed25519.PublicKey(nil).Equal(ed25519.PublicKey{}) }, "empty pub vs empty pub")
 		for _, kk := range []int{1, 8, 16, 31, 32, 33, 48, 63} { // equal in the first kk bytes only
 			o := append([]byte{}, orig...)
 			for i := kk; i < 64; i++ {
 				o[i] ^= 0xff
 			}
-			eq(true, k, o, k.Equal(ed25519.PrivateKey(o)), "priv equal prefix only")
+			eq(true, k, o, func() bool { return k.Equal(ed25519.PrivateKey(o)) }, "priv equal prefix only")
 		}
 	}
 }
